@@ -33,17 +33,19 @@ Inductive field :=
 | FRetainMatching
 | FRetainIntermediate
 | FSessions           (* linker._em_training_sessions *)
-| FOther.             (* anything else reachable from the linker / unclassified *)
+| FOther              (* anything else reachable from the linker / unclassified *)
+| FCache.             (* named entries of the table cache written by the operation itself
+                         (registered lookups / predictions / concat table) *)
 
 Definition all_fields : list field :=
   [FCoreModel; FComparisons; FPrior; FLevelMU; FLevelTrained; FLevelOther; FBlockingRules;
-   FLinkType; FRetainMatching; FRetainIntermediate; FSessions; FOther].
+   FLinkType; FRetainMatching; FRetainIntermediate; FSessions; FOther; FCache].
 
 Definition field_idx (f : field) : nat :=
   match f with
   | FCoreModel => 0 | FComparisons => 1 | FPrior => 2 | FLevelMU => 3 | FLevelTrained => 4
   | FLevelOther => 5 | FBlockingRules => 6 | FLinkType => 7 | FRetainMatching => 8
-  | FRetainIntermediate => 9 | FSessions => 10 | FOther => 11
+  | FRetainIntermediate => 9 | FSessions => 10 | FOther => 11 | FCache => 12
   end.
 
 Definition field_eqb (f g : field) : bool := Nat.eqb (field_idx f) (field_idx g).
